@@ -23,6 +23,7 @@ CHECKS = {
     'C06': 'checks_wire.check_c06',
     'C07': 'checks_wire.check_c07',
     'C08': 'checks_rt.check_c08',
+    'C12': 'checks_runs.check_c12',
     'C13': 'checks_wire.check_c13',
     'C18': 'checks_misc.check_c18',
     'C19': 'checks_misc.check_c19',
